@@ -24,6 +24,12 @@ pub struct ResolveInput {
     /// files re-sent through `analyze_file` with identical text after the scan (must not matter)
     #[serde(default)]
     pub reopen: Vec<String>,
+    /// documents the editor opened (file, buffer text) BEFORE the scan reached them (history: open, then scan)
+    #[serde(default)]
+    pub preopen: Vec<(String, String)>,
+    /// edits applied after the scan and after a first, cache-warming round of queries
+    #[serde(default)]
+    pub edits: Vec<(String, String)>,
 }
 
 /// One observed answer of the real code.
@@ -50,8 +56,22 @@ pub fn scan_then<R: Send + 'static>(
     root: PathBuf,
     after: impl FnOnce(&Arc<FixtureDatabase>, &Path) -> R + Send + 'static,
 ) -> (simrt::Outcome, Option<R>) {
+    scan_then_pre(sim, replay, root, vec![], after)
+}
+
+/// Same, with documents analysed through the editor path before the scan starts.
+pub fn scan_then_pre<R: Send + 'static>(
+    sim: &SimParams,
+    replay: Option<Vec<u32>>,
+    root: PathBuf,
+    preopen: Vec<(String, String)>,
+    after: impl FnOnce(&Arc<FixtureDatabase>, &Path) -> R + Send + 'static,
+) -> (simrt::Outcome, Option<R>) {
     simrt::run(sim.cfg(replay), move || {
         let db = Arc::new(FixtureDatabase::new());
+        for (f, t) in &preopen {
+            db.analyze_file(root.join(f), t);
+        }
         db.scan_workspace(&root);
         after(&db, &root)
     })
@@ -148,7 +168,7 @@ impl Scenario for Resolve {
                 }
             }
         }
-        serde_json::to_value(ResolveInput { sim, spec, sandbox: None, run_seed, reopen }).unwrap()
+        serde_json::to_value(ResolveInput { sim, spec, sandbox: None, run_seed, reopen, preopen: vec![], edits: vec![] }).unwrap()
     }
 
     fn exec(&self, input: &Value) -> RunOut {
